@@ -348,7 +348,7 @@ def gen_layout(rng, tier):
         return {"kind": "gg", "layout": layout, "cells": cells,
                 "fence_p": rng.choice(["0", "1/4", "1/2", "1"]),
                 "collision_prob": rng.choice([None, None, None, "1/2"]),
-                "max_states": 60 if tier == "quick" else 60}
+                "max_states": 40 if tier == "quick" else 60}
 
 
 WALLD = {"[": (-1, 0), "]": (1, 0), "^": (0, 1), "_": (0, -1)}
@@ -482,7 +482,7 @@ def features(f, s, ja):
 def run(ctx):
     tier = ctx.tier
     n_ft = 300 if tier == "quick" else 5000
-    n_gg = 40 if tier == "quick" else 600
+    n_gg = 30 if tier == "quick" else 600
     if ctx.replay_case:
         cases = [ctx.replay_case["detail"]["case"]]
     else:
@@ -599,7 +599,7 @@ def run(ctx):
                 "on flat and nested variables, related as shared / disjoint / partially overlapping, with duplicate rows, zero weights and "
                 "occasionally heterogeneous rows; grid games: 1..4 x 1..4 grids (optionally inside an obstacle border), two agents in distinct free cells, "
                 "random obstacles, one-directional walls, fences (success prob 0,1/4,1/2,1), 0-3 goals among G0/G1/G, collision_prob None or 1/2; "
-                "all reachable non-terminal states (cap 60) + the terminal state x 25 joint actions. distinct = structural hash of (tables, expression) "
+                "all reachable non-terminal states (cap 40 quick / 60 thorough) + the terminal state x 25 joint actions. distinct = structural hash of (tables, expression) "
                 "resp. (layout, parameters, state, joint action) for non-terminal non-goal states (non-trivial = a real move is computed)",
         "samples": sample,
         "input_features": feats, "ft_shapes": shapes, **counters,
